@@ -26,6 +26,11 @@ func NewSetMatcher(pattern string, caseSensitive bool, flags syntax.Flags) (*Set
 	return &SetMatcher{re: re.Simplify(), fold: !caseSensitive}, nil
 }
 
+// Init builds a matcher from an already parsed tree.
+func (m *SetMatcher) Init(re *syntax.Regexp, caseSensitive bool) *SetMatcher {
+	return &SetMatcher{re: re.Simplify(), fold: !caseSensitive}
+}
+
 // On binds the matcher to a text.
 func (m *SetMatcher) On(text []byte) *SetMatcher {
 	c := *m
